@@ -522,6 +522,7 @@ func cmdReplay(args []string) int {
 		fmt.Println("replay file names a job without an explorable spec; re-run the check instead")
 		return 2
 	}
+	explore.Verbose = os.Getenv("FXMC_VERBOSE") != ""
 	vs, err := explore.Replay(jobs[rf.Job].Spec, rf.Violation.Path)
 	if err != nil {
 		fmt.Println("replay error:", err)
